@@ -2,6 +2,7 @@ package pbar
 
 import (
 	"io"
+	"sync"
 
 	"github.com/vbauerster/mpb/v8"
 	"github.com/vbauerster/mpb/v8/decor"
@@ -13,6 +14,8 @@ const (
 )
 
 type Container struct {
+	// mu guards p, which is created lazily by whichever goroutine adds the first bar
+	mu    sync.Mutex
 	p     *mpb.Progress
 	out   io.Writer
 	quiet bool
@@ -26,10 +29,13 @@ func NewContainer(out io.Writer, quiet bool) *Container {
 	return c
 }
 
-func (c *Container) ensureProgress() {
+func (c *Container) ensureProgress() *mpb.Progress {
+	c.mu.Lock()
+	defer c.mu.Unlock()
 	if c.p == nil {
 		c.p = mpb.New(mpb.WithOutput(c.out))
 	}
+	return c.p
 }
 
 func (c *Container) NewBar(total int64, name string, unit int) Bar {
@@ -57,7 +63,7 @@ func (c *Container) addBar(total int64, name string, unit int) *mpb.Bar {
 			mpb.AppendDecorators(decor.Elapsed(decor.ET_STYLE_GO)),
 		)
 	}
-	b := c.p.New(total,
+	b := c.ensureProgress().New(total,
 		mpb.BarStyle().Lbound("[").Filler("=").Tip(">").Padding(" ").Rbound("]"),
 		options...,
 	)
@@ -66,11 +72,14 @@ func (c *Container) addBar(total int64, name string, unit int) *mpb.Bar {
 }
 
 func (c *Container) Wait() {
-	if c.p == nil {
+	c.mu.Lock()
+	p := c.p
+	c.p = nil
+	c.mu.Unlock()
+	if p == nil {
 		return
 	}
-	c.p.Wait()
-	c.p = nil
+	p.Wait()
 }
 
 func (c *Container) OverideQuiet(quiet bool) (restore func()) {
